@@ -3,6 +3,7 @@ import STProofs.QuinticAdjoint
 import STProofs.SepticAdjoint
 import STProofs.QuinticUnique
 import STProofs.SepticUnique
+import STProofs.NDAdjoint
 /-!
 # C05 — gradient propagation is the exact adjoint (property theorems: cubic, quintic and septic, every N)
 
@@ -10,6 +11,10 @@ All three orders are unconditional for positive durations (`C05_cubic`, `C05_qui
 The quintic / septic theorems are first proved under `DetOK` — no pivot determinant of the block elimination of the
 *real* system vanishes (the code divides by exactly these determinants) — which also covers non-positive durations
 with non-singular pivots; `QuinticPiv.detOK_of_pos` / `SepticPiv.detOK_of_pos` discharge it for positive durations.
+In D dimensions: `NDAdj.propagateND_adjoint` — for the D-dimensional spline object (`buildND` / `propagateND`, all orders), the
+upstream gradient paired with the derivative of the coefficient blocks plus `⟨gT, dT⟩` equals the pairing of everything
+`propagateGrad` returns with the tangent of waypoints, durations and boundary states (rows ↔ columns: `blockDot_cols`,
+per column: `col_adjoint`).
 Everything else — the dual system being solvable, the
 transposed sweeps being the adjoint of the solve, both loops, the boundary corrections with the cached
 `L_0` / `U_last` blocks — is proved.
